@@ -213,6 +213,16 @@ func mergeGen(rs []genResult) *merged {
 // It returns the number of violations that are not known findings.
 func reportViolations(prop string, b *genBuild, corpus []CorpusEntry, vs []genViolation) (unknown int, knownHit []string) {
 	known := knownKeys(prop)
+	var nonRepro []string
+	defer func() {
+		if len(nonRepro) > 0 && unknown == 0 {
+			die2("non-replayable finding(s) and nothing reproducible to report (harness bug or uncontrolled nondeterminism): %v", nonRepro)
+		}
+		if len(nonRepro) > 0 {
+			fmt.Printf("note: %d finding(s) did not reproduce in a fresh process and were dropped: %v\n", len(nonRepro), nonRepro)
+		}
+	}()
+	reported := map[string]bool{}
 	for _, v := range vs {
 		var rp map[string]any
 		json.Unmarshal(v.Replay, &rp)
@@ -227,9 +237,21 @@ func reportViolations(prop string, b *genBuild, corpus []CorpusEntry, vs []genVi
 		if err != nil {
 			die2("replay of %s failed to run: %v", v.Key, err)
 		}
-		if got != v.Key {
-			die2("non-replayable finding (harness bug): key %q replayed as %q", v.Key, got)
+		if got != v.Key && (got == "uncontrolled:differs-under-identical-tape" || got == "uncontrolled:generator-returns-while-still-writing") {
+			v.Key = got
+			rp["finding_key"] = got
+			pb, _ = json.MarshalIndent(rp, "", " ")
+			name = fmt.Sprintf("%v-%v-%s.json", rp["seed"], rp["run"], sanitize(v.Key))
+			path = filepath.Join(dir, name)
 		}
+		if got != v.Key {
+			nonRepro = append(nonRepro, fmt.Sprintf("%q replayed as %q", v.Key, got))
+			continue
+		}
+		if reported[v.Key] {
+			continue
+		}
+		reported[v.Key] = true
 		if text, ok := known[v.Key]; ok {
 			fmt.Printf("KNOWN-FINDING: property=%s key=%s %s\n", prop, v.Key, text)
 			knownHit = append(knownHit, v.Key)
@@ -334,12 +356,16 @@ func checkC12(tier string) int {
 	if err1 != nil || err2 != nil {
 		die2("determinism canary failed to run: %v %v", err1, err2)
 	}
+	unknown, knownHit := reportViolations("C12", b, corpus, m.Violations)
+	canaryNote := "64 seeds re-run in 2x2 extra processes: event-log hashes identical"
 	for i := range c1 {
 		if c1[i].LogHash != c2[i].LogHash {
-			die2("determinism canary: same seeds gave different event logs (%s vs %s)", c1[i].LogHash, c2[i].LogHash)
+			if unknown == 0 {
+				die2("determinism canary: same seeds gave different event logs (%s vs %s) and no violation was found", c1[i].LogHash, c2[i].LogHash)
+			}
+			canaryNote = "event logs of identical seeds DIFFERED between processes (consistent with the reported violation)"
 		}
 	}
-	unknown, knownHit := reportViolations("C12", b, corpus, m.Violations)
 
 	execd, exercised := 0, 0
 	siteOut := map[string]any{}
@@ -375,7 +401,7 @@ func checkC12(tier string) int {
 			"corpus_specs":        len(corpus),
 			"known_findings_hit":  knownHit,
 			"rewrite_report":      map[string]any{"os_files": b.Report.OSFiles, "time_rewrites": b.Report.TimeRewrites, "rand_files": b.Report.RandFiles, "go_stmts": b.Report.GoStmts, "selects": b.Report.Selects, "per_iteration_loopvar": b.Report.PerIterLoopVar},
-			"determinism_canary":  "64 seeds re-run in 2x2 extra processes: event-log hashes identical",
+			"determinism_canary":  canaryNote,
 			"real_vs_stub":        "real: goag, generator, specification, cmd/goag (CLI mode), templates, kin-openapi loader, yaml, x/tools/imports, kernel FS under scratch; stub: Go map iteration order inside goag's packages (tape), clock (simulated)",
 			"build_s":             b.BuildS,
 			"repo_tree_hash":      b.TreeHash,
@@ -443,12 +469,12 @@ func checkC19(tier string) int {
 	if err1 != nil || err2 != nil {
 		die2("determinism canary failed to run: %v %v", err1, err2)
 	}
+	unknown, knownHit := reportViolations("C19", b, corpus, m.Violations)
 	for i := range c1 {
-		if c1[i].LogHash != c2[i].LogHash {
-			die2("determinism canary: same seeds gave different event logs")
+		if c1[i].LogHash != c2[i].LogHash && unknown == 0 {
+			die2("determinism canary: same seeds gave different event logs and no violation was found")
 		}
 	}
-	unknown, knownHit := reportViolations("C19", b, corpus, m.Violations)
 	wall := time.Since(t0).Seconds()
 	faults := map[string]int{}
 	probes := map[string]int{}
